@@ -119,7 +119,7 @@ def gen_cases(ctx, n_docs, per_doc, depth):
                           for name, (t, v) in variables.items())
         nonbmp = re.search(r"[:,]d[89ab][0-9a-f]{2}[, )]", dtoks + " ") is not None     # a surrogate code unit in the document
         for _ in range(per_doc):
-            g = xpgen.ExprGen(r, depth=r.choice([1, 2, 2, 3, depth]), variables=variables)
+            g = xpgen.ExprGen(r, nodes=nodes, depth=r.choice([1, 2, 2, 3, depth]), variables=variables)
             e = g.gen()
             # namespace declarations are not nodes of the XPath data model (the library keeps them as
             # attribute-like nodes, reachable only through the namespace axis: known finding K21)
